@@ -38,6 +38,28 @@ func oracleLoop(c *Case, idx int, out *childOut) {
 		return "websocket " + s.W
 	}
 
+	// "re-establishes its connection after any failure": behind a strict front end that only works if every
+	// request the client makes is well-formed - the first and the n-th
+	for i := 0; i < n && i < len(t.Malformed); i++ {
+		if t.Malformed[i] != "" {
+			bad("request-not-well-formed", fmt.Sprintf("attempt %d sent a request with %s; a strict front end (nginx: 'client sent duplicate header line') answers 400, so behind one the client never comes back after its first failure or drop", i, t.Malformed[i]))
+			break
+		}
+	}
+	// every attempt has a cause the servers or the user gave (a failure, an ended connection, an unwritable
+	// message): far more attempts than the schedule has steps is a storm of connections
+	if n > len(c.Sched)+3 {
+		span := t.Start[n-1] - t.Start[0]
+		bad("connection-storm", fmt.Sprintf("%d attempts (%d established) in %s against a schedule of %d steps", n, func() (e int) {
+			for _, o := range c.Obs {
+				if o.Est {
+					e++
+				}
+			}
+			return
+		}(), fmtDur(span), len(c.Sched)))
+	}
+
 	// "re-establishes its connection after any failure": while the context is live a next attempt
 	// follows every ended attempt within Max + 1 s
 	for i := 0; i < n; i++ {
@@ -208,7 +230,16 @@ func oracleLoop(c *Case, idx int, out *childOut) {
 				break
 			}
 		}
-		if c.Obs[i].Est && i != c.Cancel.I && i < len(c.Sched) && c.Sched[i].W != "acceptdropw" && c.Sched[i].W != "acceptstay" && len(t.InSeq[i]) != c.Sched[i].K {
+		if len(c.Obs[i].Later) > 0 {
+			all := append(append([]int{}, t.AckSeq[i]...), c.Obs[i].Later...)
+			for k := 1; k < len(all); k++ {
+				if all[k] <= all[k-1] {
+					bad("reordered-or-duplicated", fmt.Sprintf("the user sent numbered messages all the time; connection %d was reset while the read side was stalled; over this and the following connections the server received ... %v (message %d after message %d)", i, all[max0(k-3):min(len(all), k+3)], all[k], all[k-1]))
+					break
+				}
+			}
+		}
+		if c.Obs[i].Est && i != c.Cancel.I && i < len(c.Sched) && c.Sched[i].W != "acceptdropw" && c.Sched[i].W != "acceptbad" && c.Sched[i].W != "acceptstay" && len(t.InSeq[i]) != c.Sched[i].K {
 			bad("message-lost-while-connected", fmt.Sprintf("connection %d: the server sent %d messages and was acknowledged, r.In delivered %d", i, c.Sched[i].K, len(t.InSeq[i])))
 		}
 	}
